@@ -25,10 +25,10 @@ def run(ctx):
     thorough = ctx.tier == 'thorough'
     exe = lc.build(ctx)
     if not lc.SKIP_E1:   # (mutation runs of the dispenso code skip the code-independent model checking)
-        ctx.check_model(lc.SPEC, 'MCForEach.tla', 'MC_fe_seq.cfg', WHAT, workers=4, timeout=1500,
+        lc.check_model(ctx, 'MCForEach.tla', 'MC_fe_seq.cfg', WHAT,
                         label='pool 0..3 x wait x maxThreads 0..4 x n 0..9 x iterator category, overlap-free schedules')
-        ctx.check_model(lc.SPEC, 'MCForEach.tla', 'MC_fe_inter_thorough.cfg' if thorough else 'MC_fe_inter.cfg', WHAT,
-                        workers=4, timeout=1500, label='all interleavings of the element applications')
+        lc.check_model(ctx, 'MCForEach.tla', 'MC_fe_inter_thorough.cfg' if thorough else 'MC_fe_inter.cfg', WHAT,
+                        label='all interleavings of the element applications')
         lc.negative_control(ctx, 'MCForEach.tla', 'MC_fe_neg_zero.cfg',
                             'original for_each_n: zero-thread pool, wait=false -> staticChunkSize(n, 0)', 'NoDivZero')
     rng = random.Random(ctx.seed + 15)
